@@ -17,9 +17,10 @@ LEAN_MODULES = ['TenpyModel.C11.Props']
 LEVEL = 'proof'
 BUDGET = {'quick': 200, 'thorough': 1500}
 RULE = ('finite and infinite MPOs (a) from random W tensors over matrix units (d = 2, 3; bond dimensions 1-5; with IdL/IdR '
-        'markers at standard or permuted positions, or without inner markers; max_range unknown; small Gaussian-integer '
-        'entries) and (b) from random term lists on spin-1/2, spin-1, boson and fermion sites (with/without charges; '
-        'operators in arbitrary site order; dyadic complex strengths; Hermitian closure in half of the cases); partner '
+        'markers at standard or permuted positions, on every bond or (finite) only on a prefix / suffix of the bonds with 1-4 '
+        'states per bond, or without inner markers; partner with its own bond dimensions and marker lists; max_range '
+        'unknown; small Gaussian-integer entries) and (b) from random term lists on spin-1/2, spin-1, boson and fermion sites (with/without charges; '
+        'operators in arbitrary site order; dyadic complex strengths; Hermitian closure in half of the cases; finite: insert_all_id False in half of the operands); partner '
         'MPOs: independent, equal, or equal plus one long-range term.  Exactly compared with the Lean model: denotation '
         '(= dense operator), tensors and markers of A+B, dagger, plus_identity, make_U_I, prefactor, overlap.  Oracle '
         '(dense numpy): sum, adjoint, is_hermitian/is_equal decisions, overlap/distance = Frobenius, alpha+beta*A, '
@@ -46,6 +47,11 @@ def case_hist(case):
     h = ['kind=' + case['kind'], 'finite=%s' % case['finite'], 'L=%d' % case['L']]
     if case['kind'] == 'W':
         h += ['d=%d' % case['d'], 'markers=%s' % case['markers'], 'chi_max=%d' % max(case['chi'])]
+        h.append('partial_markers=%s' % bool(case.get('partial')))
+        h.append('partner_own_structure=%s' % ('chiB' in case))
+        two = [b for b in range(case['L'] + 1) if case['chi'][b] == 2
+               and (case['idL'][b] is None or case['idR'][b] is None)]
+        h.append('bond_with_2_states_and_missing_marker=%s' % bool(two))
         h.append('partner=%s' % ('WB' in case))
         std = all(l == 0 for l in case['idL'] if l is not None)
         h.append('markers_standard_position=%s' % std)
@@ -54,7 +60,8 @@ def case_hist(case):
                 h.append('op=' + k)
     else:
         h += ['site=%s(%s)' % (case['site']['cls'], ','.join(str(v) for v in case['site']['kw'].values())),
-              'hermitian_closure=%s' % case.get('herm'), 'partner=%s' % ('tlB' in case)]
+              'hermitian_closure=%s' % case.get('herm'), 'partner=%s' % ('tlB' in case),
+              'insert_all_id=%s' % case.get('insert_all_id', [True, True])]
         if case.get('B_is_A_plus_one'):
             h.append('partner=A+one-long-range-term')
         h.append('n_terms=%d' % min(len(case['tlA']), 8))
